@@ -308,18 +308,7 @@ def body(r):
                         jobs.append({"world": make_world(seed + s, sampler, dims, [(opt, val)], k),
                                      "labels": [f"{sampler}:{label(opt, val)}"], "kind": "single"})
                         k += 1
-    n_pair = {"quick": 70, "thorough": 900}[tier]
-    uncovered = {}
-    for sampler, options, share in (("ns", NS_OPTIONS, 0.6), ("ins", INS_OPTIONS, 0.4)):
-        rows, left = pairwise_rows(options, rr, int(n_pair * share))
-        uncovered[sampler] = left
-        for row in rows:
-            assignment = [(o, options[o][vi]) for o, vi in row]
-            dims = rr.choice(dims_list)
-            jobs.append({"world": make_world(seed, sampler, dims, assignment, k),
-                         "labels": [f"{sampler}:{label(o, v)}" for o, v in assignment], "kind": "pair"})
-            k += 1
-    results = r.map(option_job, jobs, "options")
+    results = r.map(option_job, jobs, "single-options")
     # failing singles: signature per option value
     single_fail = {}
     for job, res in zip(jobs, results):
@@ -327,6 +316,31 @@ def body(r):
             raise runner.Harness(json.dumps(res["harness_error"], default=repr)[:3000])
         if job["kind"] == "single" and res["verdict"] not in ("OK-COMPLETED", "OK-REJECTED"):
             single_fail.setdefault(res["labels"][0], set()).add(sig_of(res))
+    # phase 2: pairwise covering array over the values that do not already fail on their own
+    # (a failing value is reported as a single; it would poison every combination containing it)
+    n_pair = {"quick": 70, "thorough": 900}[tier]
+    uncovered = {}
+    pjobs = []
+    for sampler, options, share in (("ns", NS_OPTIONS, 0.6), ("ins", INS_OPTIONS, 0.4)):
+        healthy = {}
+        for o, vals in options.items():
+            keep = [v for v in vals if f"{sampler}:{label(o, v)}" not in single_fail]
+            if keep:
+                healthy[o] = keep
+        rows, left = pairwise_rows(healthy, rr, int(n_pair * share))
+        uncovered[sampler] = left
+        for row in rows:
+            assignment = [(o, healthy[o][vi]) for o, vi in row]
+            dims = rr.choice(dims_list)
+            pjobs.append({"world": make_world(seed, sampler, dims, assignment, k),
+                          "labels": [f"{sampler}:{label(o, v)}" for o, v in assignment], "kind": "pair"})
+            k += 1
+    presults = r.map(option_job, pjobs, "option-pairs")
+    for res in presults:
+        if res.get("harness_error"):
+            raise runner.Harness(json.dumps(res["harness_error"], default=repr)[:3000])
+    jobs = jobs + pjobs
+    results = results + presults
     tally = {}
     for job, res in zip(jobs, results):
         r.absorb({kk: v for kk, v in res.items() if kk in ("evaluations", "runs", "incarnations", "sim_time", "faults",
